@@ -30,6 +30,12 @@ var (
 	gVisited = map[*node]bool{}
 )
 
+// ghost: the result group in which the registered supplier provides a type key, and the position of the type in it
+var (
+	gGroup   = map[string]int{}
+	gTypePos = map[string]int{}
+)
+
 // stands for the type of the same name declared inside NewGraph, which a contract file cannot name (kvc checks that
 // the two have the same fields; field heaps are keyed by package, type and field name)
 type fnProvider struct {
@@ -136,6 +142,8 @@ func ghostSuppliersStart() {
 	gStructPos = map[*ProviderSpec]int{}
 	gQueued = map[*node]bool{}
 	gVisited = map[*node]bool{}
+	gGroup = map[string]int{}
+	gTypePos = map[string]int{}
 }
 
 //kvc:ghost NewGraph@suppliers before "if provider.Type == ProviderTypeStruct"
@@ -327,7 +335,7 @@ func providerNodesWF(m map[*ProviderSpec]*node) bool {
 
 func argNodesWF(m map[string]*node) bool {
 	return m != nil && vs.ForallString(func(k string) bool {
-		return vs.Implies(vs.Has(m, k), m[k] != nil && m[k].providerSpec == nil && gQueued[m[k]])
+		return vs.Implies(vs.Has(m, k), m[k] != nil && m[k].providerSpec == nil && gQueued[m[k]] && m[k].arg != nil && m[k].arg.Type.String() == k && gSupplier[k] == nil)
 	})
 }
 
@@ -374,12 +382,54 @@ func unvisitedHaveNoReverseEdges(g *Graph) bool {
 	return vs.ForallRef(func(n *node) bool { return vs.Implies(!gVisited[n], len(g.reverseEdges[n]) == 0) })
 }
 
+// tableGroupsWF: the table records, for every type key, the result group of its supplier that really contains a type
+// with that key (ghost gGroup/gTypePos mirror the group index and remember the position as a witness)
+func tableGroupsWF(m map[string]*fnProvider) bool {
+	return vs.ForallString(func(k string) bool {
+		return vs.Implies(vs.Has(m, k), m[k].returnIndex == gGroup[k] && 0 <= gGroup[k] && gGroup[k] < len(m[k].provider.Provides) &&
+			0 <= gTypePos[k] && gTypePos[k] < len(m[k].provider.Provides[gGroup[k]]) &&
+			m[k].provider.Provides[gGroup[k]][gTypePos[k]].String() == k)
+	})
+}
+
+// edgeSelectedByType (C02): the slot that edge i of node n feeds requires a type whose registered supplier is n's
+// provider, and the edge names the result group in which that supplier provides it; a type without supplier is fed by
+// the injector argument of that type
+func edgeSelectedByType(g *Graph, n *node, i int) bool {
+	return vs.Implies(n.providerSpec != nil,
+		gSupplier[g.edges[n][i].node.providerSpec.Requires[g.edges[n][i].provideArgDst].String()] == n.providerSpec &&
+			gGroup[g.edges[n][i].node.providerSpec.Requires[g.edges[n][i].provideArgDst].String()] == g.edges[n][i].provideArgSrc) &&
+		vs.Implies(n.providerSpec == nil, n.arg != nil &&
+			gSupplier[g.edges[n][i].node.providerSpec.Requires[g.edges[n][i].provideArgDst].String()] == nil &&
+			n.arg.Type.String() == g.edges[n][i].node.providerSpec.Requires[g.edges[n][i].provideArgDst].String())
+}
+
+func edgesSelectedByType(g *Graph) bool {
+	return vs.ForallRef(func(n *node) bool {
+		return vs.Forall(len(g.edges[n]), func(i int) bool { return edgeSelectedByType(g, n, i) })
+	})
+}
+
+//kvc:ghost NewGraph@shape after "fnProviderMap[key] = &fnProvider{"
+func ghostGroupFn(key string, groupIndex int, typeIndex int) {
+	gGroup[key] = groupIndex
+	gTypePos[key] = typeIndex
+}
+
+//kvc:ghost NewGraph@shape after "fnProviderMap[fieldTypeKey] = &fnProvider{"
+func ghostGroupField(fieldTypeKey string) {
+	gGroup[fieldTypeKey] = 0
+	gTypePos[fieldTypeKey] = 0
+}
+
 //kvc:contract NewGraph@shape
 func contract_NewGraph_shape(metaData *MetaData, build *BuildDirective, varPool *VarPool) (result *Graph, err error) {
 	vs.Requires(metaData != nil && metaData.Imports != nil && poolInv(varPool) && buildInputWF(build))
 	vs.Ensures("graph_returned", (err == nil) == (result != nil))
 	vs.Ensures("nodes_well_formed", vs.Implies(err == nil, vs.Forall(len(result.nodes), func(k int) bool { return nodeShape(result.nodes[k]) })))
 	vs.Ensures("edges_well_formed", vs.Implies(err == nil, result.edges != nil && edgesWF(result)))
+	// C02: inputs are selected by type
+	vs.Ensures("edges_selected_by_type", vs.Implies(err == nil, edgesSelectedByType(result)))
 	vs.Ensures("requested_value_exists", vs.Implies(err == nil, result.returnValue != nil && nodeWF(result.returnValue.node) &&
 		0 <= result.returnValue.returnIndex && result.returnValue.returnIndex < returnCount(result.returnValue.node)))
 	// what topologicalSortIter's per-node counter (len(reverseEdges[n]), decremented once per argument edge) needs
@@ -397,6 +447,7 @@ func inv_NewGraph_shape_pass1(build *BuildDirective, fnProviderMap map[string]*f
 	vs.Invariant("input", buildInputWF(build))
 	vs.Invariant("table", tableWF(fnProviderMap))
 	vs.Invariant("table_idx", tableIdxWF(fnProviderMap))
+	vs.Invariant("table_groups", tableGroupsWF(fnProviderMap))
 	vs.Invariant("struct_list", vs.Forall(len(structProviders), func(k int) bool { return providerInputWF(structProviders[k]) }))
 }
 
@@ -405,15 +456,18 @@ func inv_NewGraph_shape_pass1_groups(build *BuildDirective, fnProviderMap map[st
 	vs.Invariant("input", buildInputWF(build))
 	vs.Invariant("table", tableWF(fnProviderMap))
 	vs.Invariant("table_idx", tableIdxWF(fnProviderMap))
+	vs.Invariant("table_groups", tableGroupsWF(fnProviderMap))
 	vs.Invariant("current", providerInputWF(provider))
 }
 
 //kvc:loop NewGraph@shape "for typeIndex, t := range typeGroup"
-func inv_NewGraph_shape_pass1_types(build *BuildDirective, fnProviderMap map[string]*fnProvider, provider *ProviderSpec, groupIndex int) {
+func inv_NewGraph_shape_pass1_types(build *BuildDirective, fnProviderMap map[string]*fnProvider, provider *ProviderSpec, groupIndex int, typeGroup []types.Type) {
 	vs.Invariant("input", buildInputWF(build))
 	vs.Invariant("table", tableWF(fnProviderMap))
 	vs.Invariant("table_idx", tableIdxWF(fnProviderMap))
+	vs.Invariant("table_groups", tableGroupsWF(fnProviderMap))
 	vs.Invariant("current", providerInputWF(provider) && 0 <= groupIndex && groupIndex < len(provider.Provides))
+	vs.Invariant("current_group", vs.SameSlice(typeGroup, provider.Provides[groupIndex]))
 }
 
 //kvc:loop NewGraph@shape "for _, structProvider := range structProviders"
@@ -421,6 +475,7 @@ func inv_NewGraph_shape_pass2(build *BuildDirective, fnProviderMap map[string]*f
 	vs.Invariant("input", buildInputWF(build))
 	vs.Invariant("table", tableWF(fnProviderMap))
 	vs.Invariant("table_idx", tableIdxWF(fnProviderMap))
+	vs.Invariant("table_groups", tableGroupsWF(fnProviderMap))
 	vs.Invariant("struct_list", vs.Forall(len(structProviders), func(k int) bool { return providerInputWF(structProviders[k]) }))
 }
 
@@ -429,6 +484,7 @@ func inv_NewGraph_shape_pass2_fields(build *BuildDirective, fnProviderMap map[st
 	vs.Invariant("input", buildInputWF(build))
 	vs.Invariant("table", tableWF(fnProviderMap))
 	vs.Invariant("table_idx", tableIdxWF(fnProviderMap))
+	vs.Invariant("table_groups", tableGroupsWF(fnProviderMap))
 	vs.Invariant("struct_list", vs.Forall(len(structProviders), func(k int) bool { return providerInputWF(structProviders[k]) }))
 	vs.Invariant("current", providerInputWF(structProvider))
 }
@@ -453,6 +509,7 @@ func inv_NewGraph_shape_bfs(metaData *MetaData, varPool *VarPool, graph *Graph, 
 	providerNodeMap map[*ProviderSpec]*node, argNodeMap map[string]*node, visited map[*node]bool) {
 	vs.Invariant("table", tableWF(fnProviderMap))
 	vs.Invariant("table_idx", tableIdxWF(fnProviderMap))
+	vs.Invariant("table_groups", tableGroupsWF(fnProviderMap))
 	vs.Invariant("env", metaData != nil && metaData.Imports != nil && poolInv(varPool))
 	vs.Invariant("maps", graph.edges != nil && graph.reverseEdges != nil && visited != nil)
 	vs.Invariant("queued", queuedWF())
@@ -462,6 +519,7 @@ func inv_NewGraph_shape_bfs(metaData *MetaData, varPool *VarPool, graph *Graph, 
 	vs.Invariant("edges_targets", edgesPointAtQueuedNodes(graph))
 	vs.Invariant("edges_slots", edgesPointAtArgumentSlots(graph))
 	vs.Invariant("edges_values", edgesNameExistingValues(graph))
+	vs.Invariant("edges_by_type", edgesSelectedByType(graph))
 	vs.Invariant("requested", returnShape(graph))
 	vs.Invariant("visited_mirror", vs.ForallRef(func(n *node) bool { return visited[n] == gVisited[n] }))
 	vs.Invariant("visited_were_queued", vs.ForallRef(func(n *node) bool { return vs.Implies(gVisited[n], gQueued[n]) }))
@@ -475,6 +533,7 @@ func inv_NewGraph_shape_bfs_requires(metaData *MetaData, varPool *VarPool, graph
 	providerNodeMap map[*ProviderSpec]*node, argNodeMap map[string]*node, visited map[*node]bool, n1 *node, kvcIdx int) {
 	vs.Invariant("table", tableWF(fnProviderMap))
 	vs.Invariant("table_idx", tableIdxWF(fnProviderMap))
+	vs.Invariant("table_groups", tableGroupsWF(fnProviderMap))
 	vs.Invariant("env", metaData != nil && metaData.Imports != nil && poolInv(varPool))
 	vs.Invariant("maps", graph.edges != nil && graph.reverseEdges != nil && visited != nil)
 	vs.Invariant("queued", queuedWF())
@@ -484,6 +543,7 @@ func inv_NewGraph_shape_bfs_requires(metaData *MetaData, varPool *VarPool, graph
 	vs.Invariant("edges_targets", edgesPointAtQueuedNodes(graph))
 	vs.Invariant("edges_slots", edgesPointAtArgumentSlots(graph))
 	vs.Invariant("edges_values", edgesNameExistingValues(graph))
+	vs.Invariant("edges_by_type", edgesSelectedByType(graph))
 	vs.Invariant("requested", returnShape(graph))
 	vs.Invariant("visited_mirror", vs.ForallRef(func(n *node) bool { return visited[n] == gVisited[n] }))
 	vs.Invariant("visited_were_queued", vs.ForallRef(func(n *node) bool { return vs.Implies(gVisited[n], gQueued[n]) }))
